@@ -1882,7 +1882,7 @@ class BaseSQL(
     def process_order_in_pk(data: Dict, p_list: List) -> Dict:
         columns = []
         for item in p_list[-1]:
-            if item not in ["ASC", "DESC"]:
+            if item.upper() not in ["ASC", "DESC"]:
                 columns.append(item)
         data["primary_key"] = columns
         return data
